@@ -109,7 +109,8 @@ func (u *Unit) call(f *Frame, st *State, cc *ssa.CallCommon, res ssa.Value, pos 
 		for _, b := range callee.Blocks {
 			n += len(b.Instrs)
 		}
-		if n > 40 || hasLoop(callee) {
+		icon := u.ctx.contractFor(callee)
+		if (n > 40 || hasLoop(callee)) && !(icon != nil && icon.Inline && !hasLoop(callee)) {
 			u.extDefault("abstracted callee (wiring unit): " + u.ctx.funcKey(callee))
 			res := u.freshResults(st, resTy)
 			// forget the heaps the callee (transitively) may write
